@@ -414,3 +414,55 @@ Proof.
   constructor; [reflexivity|]. constructor; [|constructor].
   cbn. split; [split; [reflexivity | exact I]|]. right. cbn. split; [split; [reflexivity | exact I] | exact I].
 Qed.
+
+(* ---- the thread based timeout --------------------------------------------------------------------
+   pool_call_restores        the pool's exit joins the worker => when the call has ended both timeouts
+                             (and the session's) are what they were, and no thread is left to write them
+   pool_call_blocks_iff      the call never ends exactly when the exit joins a worker whose read never wakes
+   pool_unjoined_refuted     without the join the read duration is the connection's timeout_transport when
+                             ScrapliTimeout reaches the caller ...
+   pool_unjoined_late_write  ... and the worker's restore later overwrites what the user has assigned since *)
+Theorem pool_call_restores : forall c o w k s,
+  fin c = true -> p_out (pool_call c true o w k s) <> Blocks ->
+  core (p_state (pool_call c true o w k s)) = core s /\ p_late (pool_call c true o w k s) = None.
+Proof.
+  intros c o w k s Hf Hb. unfold pool_call in *.
+  destruct o; destruct k; cbn in Hb |- *; try (exfalso; apply Hb; reflexivity);
+    destruct w; rewrite ?Hf; cbn; unfold core; cbn; rewrite ?ticks_ops, ?ticks_sess; cbn; auto.
+Qed.
+
+Theorem pool_call_blocks_iff : forall c joins o w k s,
+  p_out (pool_call c joins o w k s) = Blocks <-> (joins = true /\ k = WakeNever /\ o <> OvBad).
+Proof.
+  intros c joins o w k s; unfold pool_call; split.
+  - destruct o, joins, k; cbn; intro H; try discriminate H; repeat split; discriminate.
+  - intros [Hj [Hk Ho]]; subst; destruct o; cbn; try reflexivity. exfalso; apply Ho; reflexivity.
+Qed.
+
+Theorem pool_settled_is_user_state : forall c o w k s rc,
+  fin c = true -> p_out (pool_call c true o w k s) <> Blocks ->
+  settled c rc (pool_call c true o w k s) = user_sets c rc (p_state (pool_call c true o w k s)).
+Proof.
+  intros c o w k s rc Hf Hb. unfold settled.
+  destruct (pool_call_restores c o w k s Hf Hb) as [_ Hl]. rewrite Hl. reflexivity.
+Qed.
+
+Definition pool_witness (hs : bool) : pres :=
+  pool_call (mkcfg true hs) false (OvVal 80) (WTimed 5000 0) WakeLater (mkst 30000 30000 30000 []).
+
+Theorem pool_unjoined_refuted : forall hs,
+  p_out (pool_witness hs) = Raised ETimeout /\ ops (p_state (pool_witness hs)) = 30000
+  /\ tr (p_state (pool_witness hs)) = 5000.
+Proof. intros hs; vm_compute; auto. Qed.
+
+Theorem pool_unjoined_late_write : forall hs,
+  tr (user_sets (mkcfg true hs) (Some (20000, 11000)) (p_state (pool_witness hs))) = 11000
+  /\ tr (settled (mkcfg true hs) (Some (20000, 11000)) (pool_witness hs)) = 30000.
+Proof. intros hs; destruct hs; vm_compute; auto. Qed.
+
+(* the premises of pool_call_restores are satisfiable by a call that does change both values meanwhile *)
+Example pool_call_sample :
+  let r := pool_call (mkcfg true true) true (OvVal 80) (WTimed 2999 1) WakeLater (mkst 30000 12500 12500 []) in
+  p_out r = Raised ETimeout /\ core (p_state r) = (30000, 12500, 12500)
+  /\ rev (log (p_state r)) = [(PhIo, (80, 12500, 12500)); (PhTimed, (80, 2000, 12500)); (PhTimed, (80, 2000, 12500))].
+Proof. vm_compute; auto. Qed.
